@@ -37,7 +37,7 @@ func init() {
 		Jobs: func(tier string) []sym.Job {
 			ns, lens := nsQ, lensQ
 			if tier == "thorough" {
-				ns, lens = append(rng(1, 12), 31, 32, 33, 62, 63, 64, 100, 123, 124, 125), append(rng(1, 16), 100, 199, 200, 249, 250, 251, 254, 255)
+				ns, lens = append(rng(1, 8), 32, 33, 64, 100, 124, 125), append(rng(1, 10), 100, 199, 200, 249, 250, 251, 254, 255)
 			}
 			js := regJobs("VH_C04_accessor", ns, lens)
 			for _, n := range ns {
@@ -47,7 +47,7 @@ func init() {
 		},
 		Bounds: map[string]string{
 			"quick":    "23 accessors x window size n in {1,2,3,4,5,124,125} registers; start (with start+n<=65536), address, byte order (all 256 values), default order (all 256 values or library default), bit, high/low: symbolic; string lengths case-split {1,2,3,4,5,8,9,250,255}; payload bytes and 16 bytes of spare capacity symbolic",
-			"thorough": "23 accessors x window size n in {1..12,31,32,33,62,63,64,100,123,124,125}; string lengths {1..16,100,199,200,249,250,251,254,255}; rest as quick",
+			"thorough": "23 accessors x window size n in {1..8,32,33,64,100,124,125}; string lengths {1..10,100,199,200,249,250,251,254,255}; rest as quick",
 		},
 		Outside:   []string{"payloads of more than 125 registers", "Registers values not built by NewRegisters", "string lengths not listed"},
 		MinCovers: []string{"inside-window", "outside-window", "bit>15"},
